@@ -2,6 +2,7 @@
   C08 — Reset values reach the wire exactly as declared.
 -/
 import DDV.Gen.Lower
+import DDV.Gen.Lemmas.Refs
 
 namespace DDV.Props.C08
 open DDV.Gen
@@ -250,5 +251,16 @@ example : ∃ e, convertResetValue (.int 0x0F) .msb0 4 "R" .le = .error (.error 
   rw [int_form _ _ _ _ _ (by decide)]
   have : anyBitFrom (intBit .msb0 0x0F) 4 128 = true := by decide
   rw [this]; exact ⟨_, rfl⟩
+
+/-- **A ref that overrides the reset value gets its own constructor** (`new_as_<ref>`, whatever the
+    overriding value is — also when it equals the target's), and a ref that does not uses `new`. -/
+theorem ref_constructor (n : Names) (cfg : GlobalConfig) (all : List Object) (rf : RefObject)
+    (ov : RegisterOverride) (r : Register) (t : Integer) (fuel : Nat)
+    (hov : rf.override = .register ov) (ht : searchObject ov.name all = some (.register r))
+    (hc : cfg.registerAddressType = some t) :
+    ∃ m, getMethod n cfg all "new" (fuel + 2) (.ref rf) = .ok (m, []) ∧
+      m.resetFn = some (if ov.reset.isSome then s!"new_as_{n.method rf.name}" else "new") := by
+  obtain ⟨m, h, _, _, _, _, _, _, _, _, _, h10⟩ := register_ref_method n cfg all rf ov r t fuel hov ht hc
+  exact ⟨m, h, h10⟩
 
 end DDV.Props.C08
